@@ -1,5 +1,214 @@
 import Driver.Proto
+import TonicModel.Model.Status
+import TonicModel.Spec.Status
+import TonicModel.Basic.HMap
 namespace DriverC04
-/-- stub: property not yet claimed -/
-def handle (_case _obs : List String) : String × String := ("unclaimed", "fail:unclaimed")
+open Proto Status
+
+/-! token forms
+  status (case side):    `<code> <msg> <details> <#entries> (<name> <value>)*`
+  status (observed):     `<code> <msg> <details> <#names> (<name> <#values> <value>*)*`
+-/
+
+def parseSt (toks : List String) : Option (St × List String) :=
+  match toks with
+  | c :: m :: d :: rest =>
+    match nat? c, unhex m, unhex d, HMap.parse rest with
+    | some c, some m, some d, some (md, r) =>
+      if c ≤ 16 then some ({ code := Code.ofNum c, message := m, details := d, metadata := md }, r) else none
+    | _, _, _, _ => none
+  | _ => none
+
+def renderSt (st : St) : List String :=
+  toString st.code.num :: hex st.message :: hex st.details :: HMap.render st.metadata
+
+/-- observed status: numeric code, message, details, metadata -/
+structure ObsSt where
+  code : Nat
+  message : Bytes
+  details : Bytes
+  metadata : HMap
+
+def parseObsSt (toks : List String) : Option (ObsSt × List String) :=
+  match toks with
+  | c :: m :: d :: rest =>
+    match nat? c, unhex m, unhex d, HMap.parseRendered rest with
+    | some c, some m, some d, some (md, r) => some ({ code := c, message := m, details := d, metadata := md }, r)
+    | _, _, _, _ => none
+  | _ => none
+
+def join (ts : List String) : String := String.intercalate " " ts
+
+def renderOutcome : Option Outcome → List String
+  | none => ["none"]
+  | some .panic => ["panic"]
+  | some (.status st) => "st" :: renderSt st
+
+def statusNames : List Bytes := [Spec.Status.statusName, Spec.Status.messageName, Spec.Status.detailsName]
+
+def customOnly (m : HMap) : HMap := m.filter (fun e => !Spec.Status.protocolNames.contains e.1)
+
+/-- spec verdict for "reading a status from header block `h` produced observed tokens `obs`" -/
+def readVerdict (h : HMap) (obs : List String) : List (String × Bool) :=
+  match obs with
+  | ["panic"] => [("never-panics", false)]
+  | ["none"] => [("absent-iff-no-grpc-status", (Spec.Status.read h).isNone)]
+  | "st" :: rest =>
+    match parseObsSt rest, Spec.Status.read h with
+    | some (o, []), some r =>
+      match r.message, r.details with
+      | some m, some d =>
+        [("code-as-sent-or-unknown", o.code == r.code), ("message-decoded", o.message == m),
+         ("details-decoded", o.details == d),
+         ("other-headers-are-metadata", HMap.render o.metadata == HMap.render (HMap.removeAll statusNames h))]
+      | _, _ => [("undecodable-field-gives-error-status", o.code != Spec.Status.OK)]
+    | some (_, []), none => [("absent-iff-no-grpc-status", false)]
+    | _, _ => [("observed-parses", false)]
+  | _ => [("observed-parses", false)]
+
+def handle (case obs : List String) : String × String :=
+  match case with
+  | ["code", hv] =>
+    match unhex hv with
+    | none => bad
+    | some bs =>
+      (toString (Code.fromBytes bs).num,
+       verdict [("code-table", join obs == toString (Spec.Status.readCode bs))])
+  | ["u8", cs] =>
+    match nat? cs with
+    | none => bad
+    | some c =>
+      let model := if Utf8.isScalar c then "u " ++ hex (Utf8.encodeScalar c) else "none"
+      let v := match obs with
+        | ["none"] => [("rust-rejects-only-non-scalars", !Utf8.isScalar c)]
+        | ["u", o] => match unhex o with
+          | some b => [("rust-char-encoding-is-valid-utf8", Utf8.valid b), ("rust-accepts-only-scalars", Utf8.isScalar c)]
+          | none => [("observed-parses", false)]
+        | _ => [("observed-parses", false)]
+      (model, verdict v)
+  | ["codei", sgn, mag] =>
+    match nat? mag with
+    | none => bad
+    | some n =>
+      let i : Int := if sgn == "-" then - (Int.ofNat n) else Int.ofNat n
+      let c := Code.ofInt i
+      let expected : Nat := if sgn != "-" ∧ n ≤ 16 then n else Spec.Status.UNKNOWN
+      (toString c.num, verdict [("from-i32-table", join obs == toString expected)])
+  | "enc" :: rest =>
+    match parseSt rest with
+    | some (st, r) =>
+      match HMap.parse r with
+      | some (h0, []) =>
+        let model := match addHeader .fixed st h0 with
+          | .ok h => "ok" :: HMap.render h
+          | .error e => "err" :: renderSt e
+        let v := match obs with
+          | "ok" :: o =>
+            match HMap.parseRendered o with
+            | some (h, []) =>
+              [("values-legal", h.all (fun e => Spec.Status.legalHeaderValue e.2)),
+               ("message-percent-encoded", st.message.isEmpty ||
+                  (HMap.getAll Spec.Status.messageName h).all Spec.Status.percentEncodedWellFormed)]
+            | _ => [("observed-parses", false)]
+          | _ => [("status-is-encodable", false)]
+        (join model, verdict v)
+      | _ => bad
+    | none => bad
+  | "dec" :: rest =>
+    match HMap.parse rest with
+    | some (h, []) => (join (renderOutcome (fromHeaderMap .fixed h)), verdict (readVerdict h obs))
+    | _ => bad
+  | "infer" :: hs :: nf :: rest =>
+    match nat? hs, nat? nf with
+    | some http, some nf =>
+      let rec frames : Nat → List String → Option (List HMap)
+        | 0, [] => some []
+        | 0, _ => none
+        | n + 1, toks =>
+          match HMap.parse toks with
+          | some (h, r) => (frames n r).map (h :: ·)
+          | none => none
+      match frames nf rest with
+      | none => bad
+      | some fs =>
+        let renderT : Option HMap → List String
+          | none => ["none"]
+          | some t => "some" :: HMap.render t
+        let model := match streamEnd .fixed fs http with
+          | .finished t => "end" :: renderT t
+          | .err st => ("err" :: renderSt st) ++ ["t:none"]
+          | .panic => ["panic"]
+        let merged := fs.head?
+        let reading := merged.bind Spec.Status.read
+        let v := match obs with
+          | ["panic"] => [("never-panics", false)]
+          | "end" :: t =>
+            [("clean-end-only-on-ok-or-http-200", match reading with
+                | some r => r.code == Spec.Status.OK && r.message.isSome && r.details.isSome
+                | none => http == 200),
+             ("trailers-kept", join t == join (renderT merged))]
+          | "err" :: o =>
+            match parseObsSt o with
+            | some (o, ["t:none"]) =>
+              match merged, reading with
+              | some t, some _ => readVerdict t ("st" :: renderSt
+                  { code := Code.ofNum o.code, message := o.message, details := o.details, metadata := o.metadata })
+                  ++ [("error-has-nonzero-code", o.code != Spec.Status.OK)]
+              | _, _ => [("http-status-table", http != 200 && o.code == Spec.Status.httpToCode http)]
+            | _ => [("observed-parses", false)]
+          | _ => [("observed-parses", false)]
+        (join model, verdict v)
+    | _, _ => bad
+  | ["h2", rs] =>
+    match nat? rs with
+    | none => bad
+    | some r =>
+      let c := (codeFromH2 .fixed r).num
+      let model := s!"{c} {c} 1"
+      let v := match obs, Spec.Status.h2ToCode r with
+        | [a, b, _], some e => [("h2-error-table", a == toString e && b == toString e)]
+        | [_, _, _], none => []
+        | _, _ => [("observed-parses", false)]
+      (model, verdict v)
+  | ["toh2", cs] =>
+    match nat? cs with
+    | none => bad
+    | some c =>
+      let r := toH2 (Code.ofNum c)
+      let v := match obs with
+        | [o] => match nat? o with
+          | some o => [("cancelled-iff-reset-with-cancel",
+              (Spec.Status.h2ToCode o == some Spec.Status.CANCELLED) == (c == Spec.Status.CANCELLED))]
+          | none => [("observed-parses", false)]
+        | _ => [("observed-parses", false)]
+      (toString r, verdict v)
+  | kind :: rest =>
+    if kind != "rt" && kind != "rth" then bad else
+    match parseSt rest with
+    | some (st, []) =>
+      let h0 : HMap := if kind == "rth" then [(HMap.name "content-type", HMap.name "application/grpc")] else []
+      let model := match addHeader .fixed st h0 with
+        | .error e => "enc-err" :: renderSt e
+        | .ok h => ("wire" :: HMap.render h) ++ ("back" :: renderOutcome (fromHeaderMap .fixed h))
+      let v := match obs with
+        | "wire" :: o =>
+          match HMap.parseRendered o with
+          | some (h, "back" :: "st" :: b) =>
+            match parseObsSt b with
+            | some (o, []) =>
+              [("values-legal", h.all (fun e => Spec.Status.legalHeaderValue e.2)),
+               ("message-percent-encoded", (HMap.getAll Spec.Status.messageName h).all Spec.Status.percentEncodedWellFormed),
+               ("code-survives", o.code == st.code.num),
+               ("message-survives", o.message == st.message),
+               ("details-survive", o.details == st.details),
+               ("custom-metadata-survives", HMap.render (customOnly o.metadata) == HMap.render (customOnly st.metadata)),
+               ("no-protocol-names-in-metadata", o.metadata.all (fun e => !Spec.Status.protocolNames.contains e.1 || h0.contains e))]
+            | _ => [("observed-parses", false)]
+          | some (_, ["back", "panic"]) => [("never-panics", false)]
+          | _ => [("reads-back-a-status", false)]
+        | _ => [("status-is-encodable", false)]
+      (join model, verdict v)
+    | _ => bad
+  | _ => bad
+
 end DriverC04
